@@ -3,20 +3,20 @@ import PyrexVerif.Proofs.AskaryanZHS
 open PyrexR
 namespace PyrexR
 
-theorem fftfreq_even (N : ℕ) (hN : 0 < N) (d : ℝ) (k : ℕ) :
-    fftfreq (2 * N) d k = (if k < N then (k : ℝ) else (k : ℝ) - 2 * N) * (1 / ((2 * N : ℕ) * d)) := by
-  unfold fftfreq
+theorem askFftfreq_even (N : ℕ) (hN : 0 < N) (d : ℝ) (k : ℕ) :
+    askFftfreq (2 * N) d k = (if k < N then (k : ℝ) else (k : ℝ) - 2 * N) * (1 / ((2 * N : ℕ) * d)) := by
+  unfold askFftfreq
   have : (2 * N - 1) / 2 + 1 = N := by omega
   rw [this]
   split_ifs <;> simp [RofNat, RofInt]
 
 theorem ifft_term_move (N : ℕ) (hN : 0 < N) (dt : ℝ) (hdt : dt ≠ 0) (a tau : ℝ) (m j k : ℕ) (hj : m ≤ j) :
-    (let ph := 2 * Real.pi * fftfreq (2 * N) dt k * (tau + m * dt)
+    (let ph := 2 * Real.pi * askFftfreq (2 * N) dt k * (tau + m * dt)
      let re := a * Real.cos ph
      let im := -(a * Real.sin ph)
      let w := 2 * Real.pi * (j : ℝ) * (k : ℝ) / ((2 * N : ℕ) : ℝ)
      re * Real.cos w - im * Real.sin w)
-    = (let ph := 2 * Real.pi * fftfreq (2 * N) dt k * tau
+    = (let ph := 2 * Real.pi * askFftfreq (2 * N) dt k * tau
        let re := a * Real.cos ph
        let im := -(a * Real.sin ph)
        let w := 2 * Real.pi * ((j - m : ℕ) : ℝ) * (k : ℝ) / ((2 * N : ℕ) : ℝ)
@@ -29,7 +29,7 @@ theorem ifft_term_move (N : ℕ) (hN : 0 < N) (dt : ℝ) (hdt : dt ≠ 0) (a tau
     intro ph w; rw [Real.cos_sub]; ring
   rw [e1, e1]
   congr 1
-  rw [fftfreq_even N hN]
+  rw [askFftfreq_even N hN]
   have hjm : ((j - m : ℕ) : ℝ) = (j : ℝ) - (m : ℝ) := by
     rw [Nat.cast_sub hj]
   rw [hjm]
@@ -51,8 +51,8 @@ theorem ifft_term_move (N : ℕ) (hN : 0 < N) (dt : ℝ) (hdt : dt ≠ 0) (a tau
 
 theorem ifftShiftedRe_move (N : ℕ) (hN : 0 < N) (dt : ℝ) (hdt : dt ≠ 0) (amp : ℕ → ℝ) (tau : ℝ)
     (m j : ℕ) (hj : m ≤ j) :
-    ifftShiftedRe (2 * N) (fftfreq (2 * N) dt) amp (tau + m * dt) j
-      = ifftShiftedRe (2 * N) (fftfreq (2 * N) dt) amp tau (j - m) := by
+    ifftShiftedRe (2 * N) (askFftfreq (2 * N) dt) amp (tau + m * dt) j
+      = ifftShiftedRe (2 * N) (askFftfreq (2 * N) dt) amp tau (j - m) := by
   unfold ifftShiftedRe
   congr 1
   apply sumN_congr
